@@ -31,6 +31,8 @@ structure MiniU where
   repl : Option Nat := none         -- streaming handler in `replacement`
   after : List Nat := []            -- streaming handlers in `content_after`
   endRegs : List Nat := []          -- end-tag handler scripts pushed on this element
+  removeContent : Bool := false     -- element.rs:100 `should_remove_content`
+  carry : Bytes := []               -- sink: incomplete UTF-8 sequence kept by `write_utf8_chunk`
   deriving DecidableEq, Repr
 
 structure UnitEv where
@@ -52,6 +54,7 @@ structure MiniRw where
   serOn : Bool := false
   ser : List Nat := []
   endTags : List (Nat × List Nat) := []    -- element id ↦ its end-tag handler scripts
+  suppress : Option Nat := none            -- element whose content is being removed: nothing inside is serialised
   poisoned : Bool := false
   deriving DecidableEq, Repr
 
@@ -89,6 +92,9 @@ def errUtf8 : Msg := [0x75]
 def errPoisoned : Msg := [0x70]
 def errFuel : Msg := [0x66]
 
+/-- element.rs:100 `remove_content` applies: an element that can have content. -/
+def clearsContent (u : MiniU) : Bool := u.kind == .element && u.canHaveContent
+
 def miniUnitOp (u : MiniU) : ROp → MiniU × RRes × List Nat
   | .get f args =>
     if f == 4 then (u, .optStr (if hasAttr u (args.headD []) then some [] else none), [])
@@ -114,17 +120,34 @@ def miniUnitOp (u : MiniU) : ROp → MiniU × RRes × List Nat
       let n := args.headD []
       if attrNameOk n then ({ u with attrs := u.attrs.filter (· != asciiLowerBytes n) }, .unit, [])
       else (u, .unit, [])
-    else if f == 13 then ({ u with removed := true, repl := none }, .unit, u.repl.toList)
-    else if f == 14 || f == 15 then ({ u with removed := true }, .unit, [])
+    else if f == 13 then
+      -- `replace`: mutations.rs:29 drops the old replacement; element.rs:528 also `remove_content()`
+      if clearsContent u then
+        ({ u with removed := true, repl := none, after := [], removeContent := true }, .unit, u.repl.toList ++ u.after)
+      else ({ u with removed := true, repl := none }, .unit, u.repl.toList)
+    else if f == 14 then
+      if clearsContent u then ({ u with removed := true, after := [], removeContent := true }, .unit, u.after)
+      else ({ u with removed := true }, .unit, [])
+    else if f == 12 then
+      if clearsContent u then ({ u with after := [], removeContent := true }, .unit, u.after) else (u, .unit, [])
+    else if f == 15 then ({ u with removed := true }, .unit, [])
     else if f == 31 then (u, if commentTextOk (args.headD []) then .unit else .err errComment, [])
     else (u, .unit, [])
   | .callBytes _ b _ =>
-    match utf8Check b with
-    | some ⟨_, some _⟩ => (u, .err errUtf8, [])
-    | _ => (u, .unit, [])
+    -- text_encoder.rs:212 `write_utf8_chunk`: an incomplete sequence at the end is kept for the next call
+    match utf8Check (u.carry ++ b) with
+    | some ⟨_, some _⟩ => ({ u with carry := [] }, .err errUtf8, [])
+    | some ⟨upTo, none⟩ => ({ u with carry := (u.carry ++ b).drop upTo }, .unit, [])
+    | none => ({ u with carry := [] }, .unit, [])
   | .streaming f sid =>
     if f == 10 then ({ u with before := u.before ++ [sid] }, .unit, [])
-    else if f == 13 then ({ u with removed := true, repl := some sid }, .unit, u.repl.toList)
+    else if f == 13 then
+      if clearsContent u then
+        ({ u with removed := true, repl := some sid, after := [], removeContent := true }, .unit, u.repl.toList ++ u.after)
+      else ({ u with removed := true, repl := some sid }, .unit, u.repl.toList)
+    else if f == 12 then
+      -- element.rs:473 `set_inner_content_chunk`
+      if clearsContent u then ({ u with after := [sid], removeContent := true }, .unit, u.after) else (u, .unit, [sid])
     else if f == 11 then ({ u with after := sid :: u.after }, .unit, [])
     else if f == 8 then
       if u.canHaveContent then ({ u with after := sid :: u.after }, .unit, []) else (u, .unit, [sid])
@@ -158,8 +181,13 @@ def advance : Nat → MiniRw → List REv → MiniRw × List REv × RNext MiniU
         let hs : List HRef :=
           if ue.u.kind == .endTag then (lookupEnd rw.endTags ue.u.elemId).map .endTag
           else ue.hs.map .reg
+        -- the end tag that pops the element whose content is removed re-enables emission
+        let rw := if ue.u.kind == .endTag && rw.suppress == some ue.u.elemId then { rw with suppress := none } else rw
         if hs.isEmpty then advance fuel { rw with cur := rest } evs
-        else advance fuel { rw with cur := rest, unit := some ue.u, hs := hs, serOn := false, ser := [] } evs
+        else
+          -- handlers_dispatcher.rs:262: start tags inside removed content are pre-marked as removed
+          let u := if rw.suppress.isSome && ue.u.kind == .element then { ue.u with removed := true } else ue.u
+          advance fuel { rw with cur := rest, unit := some u, hs := hs, serOn := false, ser := [] } evs
     | some u =>
       match rw.hs with
       | h :: hs => ({ rw with hs := hs }, evs, .invoke h u)
@@ -168,10 +196,16 @@ def advance : Nat → MiniRw → List REv → MiniRw × List REv × RNext MiniU
           -- handlers done: remember end-tag handlers, start serialisation (tokens/mod.rs:27-50)
           let endTags := if u.kind == .element && !u.endRegs.isEmpty
             then (u.elemId, u.endRegs) :: rw.endTags else rw.endTags
-          let ser := u.before ++ (if u.removed then u.repl.toList else []) ++ u.after
-          let dropped := if u.removed then [] else u.repl.toList
-          advance fuel { rw with serOn := true, ser := ser, endTags := endTags }
-            (evs ++ dropped.map .dropHandler)
+          if rw.suppress.isSome then
+            -- inside removed content the token is not serialised: its boxed handlers are just dropped
+            advance fuel { rw with serOn := true, ser := [], endTags := endTags }
+              (evs ++ (pendingOf u).map .dropHandler)
+          else
+            let ser := u.before ++ (if u.removed then u.repl.toList else []) ++ u.after
+            let dropped := if u.removed then [] else u.repl.toList
+            let suppress := if u.removeContent then some u.elemId else none
+            advance fuel { rw with serOn := true, ser := ser, endTags := endTags, suppress := suppress }
+              (evs ++ dropped.map .dropHandler)
         else
           match rw.ser with
           | s :: ser => ({ rw with ser := ser }, evs, .invoke (.streaming s) sinkUnit)
